@@ -10,6 +10,9 @@ ENGINE = "bundle"
 LEAN_MODULES = ["RtoscModel.Props.C08"]
 THEOREMS = [
     "Rtosc.Osc.messageLengthU_encode",
+    # rtosc_message_length(msg,-1) and rtosc_bundle return on arbitrary bytes (fixes/C06-bundle-length-wrap.patch)
+    "Rtosc.Osc.messageLengthU_terminates",
+    "Rtosc.Osc.bundle_terminates",
     "Rtosc.Osc.bundle_eq_spec_partial",
     "Rtosc.Osc.bundle_eq_spec_counterexample",
     "Rtosc.Osc.bundleP_encode",
@@ -62,7 +65,9 @@ LEVEL_TEXT = ("Lean theorems, by induction over the element list for bundles nes
               "rtosc_bundle_elements reports the number of elements; rtosc_bundle_fetch/size return every element "
               "byte-identical with its exact size; the time tag is preserved; rtosc_message_length reports the total "
               "length; a message whose address is not \"#bundle\" is never taken for a bundle; append_bundle extends the "
-              "bundle by one element. The model is compared with the compiled implementation (ASan/UBSan, exact-size "
+              "bundle by one element; on arbitrary element bytes (blocks shorter than 2^32) rtosc_message_length(msg,-1) "
+              "and rtosc_bundle return (messageLengthU_terminates, bundle_terminates; fixes/C06-bundle-length-wrap.patch). "
+              "The model is compared with the compiled implementation (ASan/UBSan, exact-size "
               "blocks, heap and reused-address arena) on generated element trees and the round trip is evaluated on the "
               "implementation's output by an independent Python bundle codec")
 LEVEL_NOTE = ("Trusted: Lean kernel; the hand-written model is tied to the code by differential execution only; see "
